@@ -230,6 +230,24 @@ def check_reserved(ctx):
 
 # --------------------------------------------------------------- DUP-KEY --
 
+def _tree_dict_aliases(func):
+    '''Local names standing for (a view of) the parent's list in tree_dict:
+    `subtrees = self.tree_dict[tree]`, `seen = set(subtrees)`.'''
+    names = set()
+    for _ in range(3):
+        for node in walk_local(func.node):
+            if isinstance(node, ast.Assign) and len(node.targets) == 1 and \
+                    isinstance(node.targets[0], ast.Name):
+                val = node.value
+                if isinstance(val, ast.Call) and call_name(val) in (
+                        'set', 'list', 'frozenset') and val.args:
+                    val = val.args[0]
+                if 'tree_dict' in txt(val) or (isinstance(val, ast.Name) and
+                                               val.id in names):
+                    names.add(node.targets[0].id)
+    return names
+
+
 def check_dup_key(ctx):
     '''Where a section is registered under its parent, a membership test
     rejects (or renames) a title already used by a sibling.'''
@@ -237,12 +255,14 @@ def check_dup_key(ctx):
     func = program.func(f'{RST}:Rst.format_report_rec')
     cfg = CFG(func.node, may_raise=lambda n: False)
     regs = []
+    aliases = _tree_dict_aliases(func)
     for node in cfg.nodes:
         if node.kind != 'stmt':
             continue
         for call in calls_in(node.ast):
-            if call_name(call) in ('append', 'add', 'extend') and \
-                    'tree_dict' in txt(receiver(call)):
+            if call_name(call) in ('append', 'extend') and (
+                    'tree_dict' in txt(receiver(call)) or txt(
+                        receiver(call)) in aliases):
                 regs.append((node, call))
     ctx.floor('DUP-KEY', len(regs), 1, 'registration of a sub-section in '
               'tree_dict')
@@ -256,7 +276,7 @@ def check_dup_key(ctx):
             guarded = False
             for pnode, label in path[:-1]:
                 if pnode.kind == 'test':
-                    mem = _membership(pnode.ast, key)
+                    mem = _membership(pnode.ast, key, aliases)
                     if mem is not None and (label == 'true') != mem:
                         guarded = True
                 if pnode.kind == 'stmt' and isinstance(
@@ -275,15 +295,16 @@ def check_dup_key(ctx):
                    if not ok_all else {'paths': n_paths})
 
 
-def _membership(test, key):
+def _membership(test, key, aliases=()):
     '''True if `key in <tree/text dict ...>`, False if `not in`.'''
     if isinstance(test, ast.UnaryOp) and isinstance(test.op, ast.Not):
-        inner = _membership(test.operand, key)
+        inner = _membership(test.operand, key, aliases)
         return None if inner is None else not inner
     if isinstance(test, ast.Compare) and len(test.ops) == 1 and \
             txt(test.left) == key and ('tree_dict' in txt(
                 test.comparators[0]) or 'text_dict' in txt(
-                    test.comparators[0])):
+                    test.comparators[0]) or txt(
+                        test.comparators[0]) in aliases):
         if isinstance(test.ops[0], ast.In):
             return True
         if isinstance(test.ops[0], ast.NotIn):
@@ -319,9 +340,11 @@ def check_page_flow(ctx):
             n += 1
             kws = {k.arg: txt(k.value) for k in node.keywords}
             reg = None
+            aliases = _tree_dict_aliases(func)
             for sub in walk_local(func.node):
                 if isinstance(sub, ast.Call) and call_name(sub) == 'append' \
-                        and 'tree_dict' in txt(receiver(sub)):
+                        and ('tree_dict' in txt(receiver(sub)) or txt(
+                            receiver(sub)) in aliases):
                     reg = txt(sub.args[0])
             ctx.decide('PAGE-FLOW', func, f'recursion with tree='
                        f'{kws.get("tree")} (registered: {reg})',
